@@ -323,6 +323,18 @@ int main(int argc, char **argv)
 		/* NOTREACHED */
 	}
 
+	if ((size_t) hostname_maxlen < strlen(topdomain) + 24) {
+		/* build_hostname() needs 8 characters for header, dot and
+		   safety margin; with a smaller limit its length arithmetic
+		   wraps around and hostnames grow far beyond 255 characters.
+		   Ask for room for at least 16 characters of data as well. */
+		warnx("Hostname length limit %d (-M) leaves no room for data "
+			"in front of a %d character domain.\n",
+			hostname_maxlen, (int) strlen(topdomain));
+		usage();
+		/* NOTREACHED */
+	}
+
 	client_set_selecttimeout(selecttimeout);
 	client_set_lazymode(lazymode);
 	client_set_topdomain(topdomain);
